@@ -19,7 +19,7 @@ func init() {
 	register(&Property{
 		Meta: report.Meta{
 			Property:    "C17",
-			Explanation: "Structural rules on package container: (R1) variant pipelines — for each of the 16 From*/To* functions the set of stages reachable in the package's call graph (base64 = encoding/base64.NewDecoder/NewEncoder, car = readCar/writeCar, cbor = the ipld.DecodeStreaming / EncodeStreaming call of FromCborReader / ToCborWriter) must be exactly what the API name announces, byte and stream variants of a format must agree, byte variants wrap their argument in a reader / collect a buffer, and the base64 variants hand the base64 wrapper of the caller's stream to the format core; (R2) single door — entries are stored into a container.Reader only in addToken, under the CID and token returned by a successful token.FromSealed(data); (R3) all-or-nothing — in both readers an iteration continues only if the iterator reported no error and addToken succeeded, an aborted iteration leaves a non-nil error, and success is returned only after exhaustion; (R4) CAR integrity — readBlock succeeds only if Prefix(cid).Sum(data) equals the stored CID, for the cid/data split of the same section; (R5) the writers iterate the whole map and write cid ++ data (CAR) / every data (CBOR). (R6) pool typestate: no object is put back into a sync.Pool (directly or by a deferred call) while the function returns it, a view of it, or a function literal that captured it; a positive example under lint/testdata/canary/pool must be flagged on every run. Set equality of contents is a runtime-value clause and is not decided. (R2) every MapUpdate on a container.Reader, in whatever function, stores results #0 / #1 of one token.FromSealed call on a path that knows it succeeded. In every function that stores into a Reader, a path through a call of token.FromSealed without the fact that its error is nil ends in a failure return or panic.",
+			Explanation: "Structural rules on package container: (R1) variant pipelines — for each of the 16 From*/To* functions the set of stages reachable in the package's call graph (base64 = encoding/base64.NewDecoder/NewEncoder, car = readCar/writeCar, cbor = the ipld.DecodeStreaming / EncodeStreaming call of FromCborReader / ToCborWriter) must be exactly what the API name announces, byte and stream variants of a format must agree, byte variants wrap their argument in a reader / collect a buffer, and the base64 variants hand the base64 wrapper of the caller's stream to the format core; (R2) single door — entries are stored into a container.Reader only in addToken, under the CID and token returned by a successful token.FromSealed(data); (R3) all-or-nothing — in both readers an iteration continues only if the iterator reported no error and addToken succeeded, an aborted iteration leaves a non-nil error, and success is returned only after exhaustion; (R4) CAR integrity — readBlock succeeds only if Prefix(cid).Sum(data) equals the stored CID, for the cid/data split of the same section; (R5) the writers iterate the whole map and write cid ++ data (CAR) / every data (CBOR). (R6) pool typestate: no object is put back into a sync.Pool (directly or by a deferred call) while the function returns it, a view of it, or a function literal that captured it; a positive example under lint/testdata/canary/pool must be flagged on every run. Set equality of contents is a runtime-value clause and is not decided. (R2) every MapUpdate on a container.Reader, in whatever function, stores results #0 / #1 of one token.FromSealed call on a path that knows it succeeded. In every function that stores into a Reader, a path through a call of token.FromSealed without the fact that its error is nil ends in a failure return or panic. (R6) no Return of a library function has a map-typed result that is loaded from a package-level variable of the module.",
 			Assumptions: []string{"encoding/base64, bufio, go-cid and go-ipld-prime behave as documented", "range-over-func protocol of the Go compiler"},
 			Trusted:     []string{"encoding/base64", "go-cid", "go-ipld-prime", "golang.org/x/tools/go/ssa v0.29.0"},
 			NotDecided:  []string{"set equality of written and read contents (runtime values)", "behaviour of the CBOR / base64 codecs"},
@@ -40,8 +40,9 @@ func runC17(x *Ctx) {
 	allOrNothing(x)
 	carIntegrity(x)
 	writersCover(x)
-	x.C.Rule("C17.R6", "readers do not share state across calls: nothing is released to a pool while a returned iterator still uses it", 2)
+	x.C.Rule("C17.R6", "readers do not share state across calls: nothing is released to a pool while a returned iterator still uses it; no shared map is handed out", 3)
 	x.poolDiscipline("C17.R6", "pkg/container")
+	freshMaps(x, "C17.R6")
 }
 
 // stagesOf computes the stage markers reachable from f inside package container.
@@ -451,7 +452,11 @@ func writersCover(x *Ctx) {
 		}
 	}
 	carWriterAbort(x, "C17.R5")
-	if f := x.fn("C17.R5", ctnPkg+"writeCar$1"); f != nil {
+	var consumer *ssa.Function
+	if wc := x.P.Func(ctnPkg + "writeCar"); wc != nil {
+		consumer = carConsumer(x, wc) // its absence is reported by carWriterAbort
+	}
+	if f := consumer; f != nil {
 		w := func(n string, ct *paths.Term) bool {
 			return n == ctnPkg+"ldWrite" && len(ct.Args) == 2 && ct.Args[1].String() == "[call[(github.com/ipfs/go-cid.Cid).Bytes](arg0.c),arg0.data]"
 		}
@@ -521,16 +526,7 @@ func rangesOverWriter(x *Ctx, root *ssa.Function) []writerRange {
 // to return.
 func carWriterAbort(x *Ctx, rule string) {
 	if wc := x.fn(rule, ctnPkg+"writeCar"); wc != nil {
-		var y *ssa.Function
-		for _, p := range x.pathsQuiet(wc) {
-			for _, c := range p.Calls() {
-				if pv, isParam := c.Call.Value.(*ssa.Parameter); isParam && pv == wc.Params[len(wc.Params)-1] && len(c.Call.Args) == 1 {
-					if g, _ := paths.FuncOfTerm(p.Term(c.Call.Args[0])); g != nil {
-						y = g
-					}
-				}
-			}
-		}
+		y := carConsumer(x, wc)
 		if y == nil {
 			x.C.Unresolved(rule, "consumer:writeCar", x.pos(wc), "cannot find the function that consumes the block iterator")
 		} else {
@@ -538,6 +534,40 @@ func carWriterAbort(x *Ctx, rule string) {
 			x.C.Obl(rule, "car:abort-leaves-error", x.pos(y), "when writing a block fails (or the iterator yields an error) the loop stops and a non-nil error reaches writeCar's result", ok, detail)
 		}
 	}
+}
+
+// carConsumer finds the function run for every block of the iterator writeCar is given: the argument of the call
+// of the iterator parameter, in writeCar itself or in a new helper of the package the loop was moved to.
+func carConsumer(x *Ctx, wc *ssa.Function) *ssa.Function {
+	cands := []*ssa.Function{wc}
+	var more []*ssa.Function
+	for g := range x.P.ReachFrom(wc) {
+		if g != wc && x.P.IsNewHelper(g) && x.P.PkgPathOf(g) == x.P.PkgPathOf(wc) && g.Parent() == nil {
+			more = append(more, g)
+		}
+	}
+	sort.Slice(more, func(i, j int) bool { return load.ShortName(more[i]) < load.ShortName(more[j]) })
+	cands = append(cands, more...)
+	for _, g := range cands {
+		for _, p := range x.pathsQuiet(g) {
+			for _, c := range p.Calls() {
+				pv, isParam := c.Call.Value.(*ssa.Parameter)
+				if !isParam || pv.Parent() != g || len(c.Call.Args) != 1 {
+					continue
+				}
+				if g == wc && pv != wc.Params[len(wc.Params)-1] {
+					continue
+				}
+				if _, isFn := c.Call.Args[0].Type().Underlying().(*types.Signature); !isFn {
+					continue
+				}
+				if h, _ := paths.FuncOfTerm(p.Term(c.Call.Args[0])); h != nil {
+					return h
+				}
+			}
+		}
+	}
+	return nil
 }
 
 // iteratorPairs (C17.R2): the iterators of a Reader (GetAllDelegations, GetAllInvocations, whatever helper they
